@@ -334,7 +334,7 @@ def main() -> int:
     parser.add_argument("--jobs", type=int, default=14)
     parser.add_argument("--props")
     parser.add_argument("--max-checks", type=int, default=3)
-    args = parser.parse_args()
+    args = parser.parse_intermixed_args()
     if args.mode == "gen":
         for rel in args.files:
             ms = mutants(rel)
